@@ -173,6 +173,9 @@ fn parse_all(lines: &[String]) -> Vec<Result<BlockStmt, String>> {
     lines
         .iter()
         .map(|l| match parse_guarded(l) {
+            // (U9: a huge line that a FRESH compiler refuses on its own exceeds the instruction format; the model,
+            // which has no such limits, treats it as a line that does not compile)
+            Parsed::Ok(a) if l.len() > 30_000 && matches!(catch_unwind(AssertUnwindSafe(|| Compiler::new().compile_ast(&a).is_err())), Ok(true)) => Err("beyond the limits of the instruction format (U9)".to_string()),
             Parsed::Ok(a) => Ok(a),
             Parsed::Err(e) => Err(e),
             Parsed::Panic(p) => Err(format!("panic {p}")),
@@ -611,9 +614,10 @@ const DEVIATIONS_FIXED: &[&str] = &[
     "",
 ];
 
-/// The fixed deviation lines plus three HUGE lines (they succeed; their code does not fit 16-bit addressing, or
-/// comes within a few bytes of it): a declaration of a list of 22 000 elements, 16 400 statements, and a line
-/// whose code ends just below 64 KiB followed by a read.
+/// The fixed deviation lines plus five HUGE lines (code that does not fit 16-bit addressing, or comes within a
+/// few bytes of it): a declaration of a list of 22 000 elements, 16 400 statements, a line whose code ends just
+/// below 64 KiB followed by a read (these succeed); a function whose body ends beyond 64 KiB and a function
+/// behind 64 KiB of code (these are refused while a function is being compiled).
 fn deviations() -> &'static [String] {
     static CELL: std::sync::OnceLock<Vec<String>> = std::sync::OnceLock::new();
     CELL.get_or_init(|| {
@@ -621,6 +625,10 @@ fn deviations() -> &'static [String] {
         v.push(format!("stel reus = [{}0]; lengte(reus)", "0, ".repeat(21_999)));
         v.push(format!("stel veel = 1; {}veel", "1; ".repeat(16_400)));
         v.push(format!("stel bijna = [{}0]; lengte(bijna)", "0, ".repeat(16_370)));
+        // a function whose body ends beyond 64 KiB, and a small function behind 64 KiB of code: both refused,
+        // from inside a function context
+        v.push(format!("functie reus() {{ {}1 }} reus()", "1; ".repeat(16_400)));
+        v.push(format!("stel voor = 1; {}functie achter() {{ voor }} achter()", "1; ".repeat(16_400)));
         v
     })
 }
